@@ -157,18 +157,20 @@ def pairsOf (h : Heap) : List Val → Except Err (List (Val × Val))
       | .error e => .error e
       | .ok ps => .ok (p :: ps)
 
+/-- `dict.update(_, v)` for a `v` without `keys()`: an iterable of pairs -/
+def updateSeq (h : Heap) (v : Val) : Except Err (List (Val × Val)) :=
+  match rawIter h v with
+  | some items => pairsOf h items
+  | none => .error typeErr
+
 /-- the `(key, value)` sequence `dict.update(_, v)` applies, in order -/
 def updatePairs (h : Heap) (v : Val) : Except Err (List (Val × Val)) :=
   match v with
   | .ref a =>
     match h[a]? with
     | some (.dict _ es) => .ok es
-    | _ => match rawIter h v with
-      | some items => pairsOf h items
-      | none => .error typeErr
-  | _ => match rawIter h v with
-    | some items => pairsOf h items
-    | none => .error typeErr
+    | _ => updateSeq h v
+  | _ => updateSeq h v
 
 def applyPairs (es : List (Val × Val)) (ps : List (Val × Val)) : List (Val × Val) :=
   ps.foldl (fun acc p => dictSet acc p.1 p.2) es
@@ -295,15 +297,18 @@ def hasIter (h : Heap) : Val → Bool
     | none => false
   | _ => false
 
-/-- `get_handler('iterate', target)`: the nearest nominal registered ancestor, else
-    `_AbstractIterable` when the class has `__iter__` and is not excluded, else `object` -/
-def iterHandler (env : Env) (h : Heap) (v : Val) : Option String :=
-  let cls := v.clsName h
+/-- `get_handler('iterate', target)` for an object of class `cls`: the nearest nominal
+    registered ancestor, else `_AbstractIterable` when the class has `__iter__` and is not
+    excluded, else `object` -/
+def iterHandlerOf (env : Env) (cls : String) (hasIt : Bool) : Option String :=
   match (env.ct.mro cls).findSome? (fun c => if c == "object" then none else regLookup env.iterReg c) with
   | some hn => some hn
   | none =>
-    if hasIter h v && !(env.absIterExcluded.contains cls) then regLookup env.iterReg "_AbstractIterable"
+    if hasIt && !(env.absIterExcluded.contains cls) then regLookup env.iterReg "_AbstractIterable"
     else regLookup env.iterReg "object"
+
+def iterHandler (env : Env) (h : Heap) (v : Val) : Option String :=
+  iterHandlerOf env (v.clsName h) (hasIter h v)
 
 inductive IterErr where
   | unregistered            -- UnregisteredTarget
